@@ -9,6 +9,11 @@ from harness.common import frac, err_kind, close
 DISABLED = True
 PID = "C28"
 THEOREMS = [
+    "PorepyVerif.C28.tolSmall_default",
+    "PorepyVerif.C28.seg2d_eq_spec",
+    "PorepyVerif.C28.seg3d_eq_spec",
+    "PorepyVerif.C28.seg3dCode_misses_crossing",
+    "PorepyVerif.C28.seg3dCode_doubles_touching_point",
 ]
 LEAN_MODULES = ["PorepyVerif.C28.Props"]
 AUDIT = "PorepyVerif/C28/Audit.lean"
